@@ -592,7 +592,7 @@ func main() {
 		"traces_validated_against_impl": total,
 		"evaluations":                   total,
 		"distinct_nontrivial":           total,
-		"rule":                          fmt.Sprintf("alphabet of %d hostile requests over all 17 RPCs of DatasetManager / DataManager / Search; every single request and every ordered pair after the fixed prefix (thorough: also from the empty server), each on a fresh server, followed by crash, restart, replay and probes; all sequences are distinct", len(rs)),
+		"rule":                          fmt.Sprintf("alphabet of %d hostile requests over all 17 RPCs of DatasetManager / DataManager / Search; every single request and every ordered pair after the fixed prefix (thorough: also from the empty server; plus singles and parallel-vector pairs after a cosine prefix), each on a fresh server, followed by crash, restart, replay and probes; all sequences are distinct", len(rs)),
 		"alphabet":                      len(rs),
 		"samples":                       []interface{}{[]string{"Create(dim=2,P=0,R=1,space=0)", "Insert(ds=L,new id,ok)"}, []string{"Update(D,A,ok,metadata absent)", "Search(D,ok,k=2147483648)"}},
 		"exhaustive":                    complete,
